@@ -183,8 +183,25 @@ func c08Run(ctx *run.Ctx, id run.CaseID) {
 		return
 	}
 	ctx.Eval(2)
+	class := ""
 	fail := func(sub, detail string) {
-		ctx.Fail(digest, sub, "", fmt.Sprintf("%s; pattern=%v path=%v closed=%v", detail, mc.Pattern, mc.Path, mc.Closed), mc)
+		ctx.Fail(digest, sub, class, fmt.Sprintf("%s; pattern=%v path=%v closed=%v", detail, mc.Pattern, mc.Path, mc.Closed), mc)
+		class = ""
+	}
+	// attribution: the library's result is UnionPaths64(quads, NonZero); rebuild the quads (as-built model of
+	// minkowskiInternal), check that their union reproduces the library's result bit for bit, and only then ask
+	// whether the witness lies in a join / repair triangle of that union (KF repair-discarded-loop)
+	unionClass := func(isSum bool, res Paths, p Pt) string {
+		quads := minkQuadsModel(mc.Pattern, mc.Path, isSum, mc.Closed)
+		var again Paths
+		func() {
+			defer func() { recover() }()
+			again = clip.UnionPaths64(quads, clip.NonZero)
+		}()
+		if !pathsEqual(again, res) {
+			return ""
+		}
+		return discardClassPoint(quads, nil, clip.Union, clip.NonZero, p)
 	}
 	for name, res := range map[string]Paths{"sum": sum, "diff": diff} {
 		if d := structuralDefects(res); d != "" {
@@ -220,6 +237,7 @@ func c08Run(ctx *run.Ctx, id run.CaseID) {
 				sawOut = true
 			}
 			if (w != 0 || on) != want {
+				class = unionClass(isSum, res, p)
 				fail("region/"+name, fmt.Sprintf("at %s the translated pattern boundary meets the path: %v, but result winding is %d; result=%v", fmtPt(p), want, w, res))
 				if isSum {
 					doneSum = true
@@ -251,4 +269,42 @@ func c08Run(ctx *run.Ctx, id run.CaseID) {
 			ctx.Sample(map[string]any{"case": id.String(), "input": mc})
 		}
 	}
+}
+
+// minkQuadsModel mirrors minkowskiInternal: one positively oriented quad per (path edge, pattern edge).
+func minkQuadsModel(pattern, path Path, isSum, isClosed bool) Paths {
+	patLen, pathLen := len(pattern), len(path)
+	if patLen == 0 || pathLen == 0 {
+		return Paths{}
+	}
+	tmp := make(Paths, 0, pathLen)
+	for _, q := range path {
+		p2 := make(Path, 0, patLen)
+		for _, b := range pattern {
+			if isSum {
+				p2 = append(p2, Pt{X: q.X + b.X, Y: q.Y + b.Y})
+			} else {
+				p2 = append(p2, Pt{X: q.X - b.X, Y: q.Y - b.Y})
+			}
+		}
+		tmp = append(tmp, p2)
+	}
+	delta, g := 1, 0
+	if isClosed {
+		delta, g = 0, pathLen-1
+	}
+	var out Paths
+	h := patLen - 1
+	for i := delta; i < pathLen; i++ {
+		for j := 0; j < patLen; j++ {
+			quad := Path{tmp[g][h], tmp[i][h], tmp[i][j], tmp[g][j]}
+			if oracle.Area2(quad).Sign() < 0 {
+				quad = gen.Reverse(quad)
+			}
+			out = append(out, quad)
+			h = j
+		}
+		g = i
+	}
+	return out
 }
